@@ -20,11 +20,36 @@ META = dict(
          "FilterBestMatch returns exactly one first-least-error representative per overlap cluster, pairwise disjoint, every hit covered; "
          "BestMatch reports a match iff the automaton does; AllMatches never reports a match without a hit and, on IUPAC-letter patterns and "
          "a/c/g/t texts (where LocatePattern's and the automaton's edit scripts are proved to have the same costs), loses no filtered hit and "
-         "reports the automaton's own edit distance of the reported span. The model is evaluated by vm_compute on the same cases the real cgo "
-         "code ran on, and an independent brute-force Python oracle (mismatch count / Sellers / edit distance) judges every observation.",
+         "reports the automaton's own edit distance of the reported span; on every read the re-aligned count is never above it "
+         "(C10_realigned_never_above). The predicate behind obigrep --approx-pattern (predicat.go: IsPatternMatchSequence over IsMatching and "
+         "ReverseComplement) is modelled and proved: on an accepted pattern it is built without a fatal error, its second pattern is the "
+         "complemented pattern, and it selects a sequence iff the pattern occurs in it within the budget or (both strands) in its reverse "
+         "complement (C10_predicate_strands / _both_strands / _indel / _refused). The model is evaluated by vm_compute on the same cases the "
+         "real cgo code ran on, and an independent brute-force Python oracle (mismatch count / Sellers / edit distance) judges every "
+         "observation; the command line is run too: obigrep --approx-pattern / --pattern-error / --allows-indels / --only-forward (several "
+         "patterns, file or stdin, --force-one-cpu, --max-cpu, --batch-size, --no-order) is judged by the oracle and compared with the "
+         "in-process predicate objects and with the model of the option glue (grep_select, C10_obigrep_selection); obiannotate --pattern "
+         "(BestMatch of the pattern, then of the complemented pattern: pattern_location / _error / _match, complement(..) on the other strand) "
+         "is compared with the in-process BestMatch tuples that oracle and model judge. Object lifecycles are part of the stream: patterns, complemented patterns and sequences (fresh and "
+         "recycled) left to the finalizers of pattern.go, which run before the next case.",
     note="Known findings: m64-rejected (the property says lengths 1..64; 64 symbols do not fit the 64-bit state word: refused with an error since "
-         "the repair, theorems C10_make_pattern_length / _too_long) and x-pattern-realign (X is N in sDnaCode and nothing in obialign._iupac: "
-         "re-aligned counts are off for patterns with X; theorem C10_samenuc_x_differs). The window is the code's: text positions "
+         "the repair, theorems C10_make_pattern_length / _too_long), x-pattern-realign (X is N in sDnaCode and nothing in obialign._iupac: "
+         "re-aligned counts are off for patterns with X; theorem C10_samenuc_x_differs) and text-ambiguity-realign (a read symbol n, r, y, ... "
+         "mismatches every pattern position in the C automaton and is compatible in obialign._samenuc: AllMatches / BestMatch report a count "
+         "below the automaton's for the same span; theorems C10_text_ambiguity_counts_differ (witness), C10_realigned_never_above, "
+         "C10_samenuc_contains_automaton). "
+         "Not exercised: ApatPattern.Print (debug dump of the encoded pattern on the C stdout; no observable of the property); the error "
+         "branches of MakeApatSequence / new_apatseq (allocation failure only; note for the maintainers: that branch calls C.free on the Go "
+         "slice of the BioSequence) and of ReverseComplement (unreachable for an accepted pattern of the documented grammar: "
+         "C10_comp_string; strings outside the grammar are observed with their complement, never an alarm); the guard of BestMatch that "
+         "answers matched=false when the best hit ends beyond the sequence or starts left of it without re-alignment (dead on linear "
+         "sequences: C10_find_all_index_hits_wf + C10_bestmatch_iff; it only fires on circular sequences, which no caller of BestMatch "
+         "builds). Outside the property: buildPattern does not release the Pattern when CheckPattern / EncodePattern refuse the string "
+         "(a leak of a few hundred bytes per refused pattern, no observable); LowerSequence of obiapat.c (its IS_UPPER macro tests "
+         "<= 'A') has no caller; LocatePattern on an empty pattern is outside the quantifier (the check demands the refusal, log.Panicf). "
+         "With indels and obligatory positions the code's reading is not symmetric under reverse complement (a text symbol may be inserted "
+         "before an obligatory position, not after it): the predicate oracle takes the sandwich for the complemented pattern there. "
+         "The window is the code's: text positions "
          "[max(begin,0), min(begin+length+MAX_PAT_LEN, seqlen)) (C10_window_covers_starts: it contains every occurrence starting in the "
          "requested region). With indels the semantics of obligatory positions is the code's (the initial state may drop obligatory leading "
          "positions): C10_indel_sellers covers it, the edit-script theorems assume no obligatory position, the oracle uses a sandwich. "
@@ -35,7 +60,9 @@ META = dict(
          "reads them as 'a'); upper-case text is lower-cased by BioSequence before the matcher sees it. Budgets above MAX_PAT_ERR-1 = 63 would "
          "overrun the state array r[2*MAX_PAT_ERR+2] of ManberSub/ManberIndel (not checked by buildPattern; outside the quantifier 0..4). "
          "Circular sequences belong to C11 (here only as the previous content of a recycled ApatSequence).")
-TRUSTED = ["the IUPAC meaning of the pattern letters: Python oracle table IUPAC (A C G T U=T R Y M K S W B D H V N X=N, other letters empty) and, "
+TRUSTED = ["obigrep runs (command-line differential): the FASTA reader / writer of the command carry the sequences and identifiers unchanged "
+           "(lower-casing apart); identifiers s0000.. written by the check",
+           "the IUPAC meaning of the pattern letters: Python oracle table IUPAC (A C G T U=T R Y M K S W B D H V N X=N, other letters empty) and, "
            "independently, Model.v iupac_bases (26 lines) - the regenerated code tables are proved / checked against them",
            "verif hooks pkg/obiapat/verif2_c10.go (GetCode(dna), ecoComplementPattern on one-character strings, apat.h constants) and "
            "pkg/obialign/verif2_c10.go (_iupac) return the tables the code uses"]
@@ -347,7 +374,7 @@ def filter_best_props(find, filt):
 
 # ------------------------------------------------------------------ generators
 SYMS_PLAIN = "ACGT"
-SYMS_IUPAC = "RYMKSWBDHVN"
+SYMS_IUPAC = "RYMKSWBDHVNU"          # U: the base set of T, complemented into A
 
 
 def gen_symbol(rng, fancy):
@@ -502,6 +529,8 @@ def gen_case(rng, m=None, apis=True):
         c["prevcirc"] = rng.random() < 0.4
     if rng.random() < 0.5 and not dirty:
         c["rcseq"] = revcomp_text(seq)
+    if rng.random() < 0.08:
+        c["gc"] = True              # nothing freed explicitly: the finalizers of pattern.go release the C memory before the next case
     return c
 
 
@@ -526,6 +555,130 @@ def gen_window_cases(rng, n):
             lengths = {-1, 0, 1, hs - b, hs - b + 1, he - b - MAXPAT - 1, he - b - MAXPAT, he - b - MAXPAT + 1, he - b, L - b, L - b - MAXPAT, L - b + 1, m}
             for length in rng.sample(sorted(x for x in lengths if x >= -1), 3):
                 cases.append(dict(pat=pat, k=k, indel=indel, seq=seq, begin=begin, length=length, apis=rng.random() < 0.5, tag="window"))
+    return cases
+
+
+
+# ------------------------------------------------------------------ round 3: predicate (predicat.go / obigrep --approx-pattern), left-cut sites,
+# boundary pattern lengths, object lifecycles
+def gen_pred_seqs(rng, P, k, indel, n):
+    """sequences for one predicate object: site on the forward strand, on the reverse strand only, nowhere, cut by either end,
+    shorter than the pattern, upper case"""
+    m = len(P)
+    seqs = []
+    for _ in range(n):
+        r = rng.random()
+        if r < 0.3:
+            x = gen_text(rng, P, k, indel)
+        elif r < 0.6:
+            x = revcomp_text(gen_text(rng, P, k, indel))          # the site is on the other strand
+        elif r < 0.75:
+            x = "".join(rng.choice("acgt") for _ in range(rng.randrange(1, m + 40)))
+        elif r < 0.85:                                            # site cut by an end of the sequence
+            w = "".join(instance(rng, P))
+            cut = rng.randrange(0, min(k, m - 1) + 2) if m > 1 else 0
+            fill = "".join(rng.choice("acgt") for _ in range(rng.randrange(0, 20)))
+            x = (w[cut:] + fill) if rng.random() < 0.5 else (fill + w[:m - cut])
+            if rng.random() < 0.5:
+                x = revcomp_text(x)
+        elif r < 0.95:
+            x = "".join(rng.choice("acgt") for _ in range(rng.randrange(1, max(2, m))))
+        else:
+            x = "".join(rng.choice("acgtnry") for _ in range(rng.randrange(1, m + 30)))
+        if not x:
+            x = rng.choice("acgt")
+        if rng.random() < 0.08:
+            x = x.upper()
+        seqs.append(x)
+    return seqs
+
+
+PRED_CORPUS = [
+    dict(kind="pred", pat="AACC", k=0, indel=False, both=True, seqs=["ccggaacc", "ttggttaa", "ttttt", "aac", "AACC", "ggtt", "ggt"], tag="pred-corpus"),
+    dict(kind="pred", pat="AACC", k=0, indel=False, both=False, seqs=["ccggaacc", "ttggttaa", "ttttt", "aac", "AACC", "ggtt", "ggt"], tag="pred-corpus"),
+    dict(kind="pred", pat="AACC", k=1, indel=False, both=True, seqs=["ttaacgtt", "ttcgtttt", "a", "ggt", "ggta"], tag="pred-corpus"),
+    dict(kind="pred", pat="AACCT", k=1, indel=True, both=True, seqs=["ttaacgtt", "ttacctt", "ttaggtt", "aggt", "ggt", "tt"], tag="pred-corpus"),
+    dict(kind="pred", pat="A[CT]G#!T", k=1, indel=False, both=True, seqs=["ttacgcttt", "ttgcgttt", "ttagcgtt", "ttttttt"], tag="pred-corpus"),
+    dict(kind="pred", pat="!T#K!H[GT]", k=1, indel=False, both=True, seqs=["acgtacgtgtac", revcomp_text("acgtacgtgtac"), "tttttttt"], tag="pred-corpus"),
+    dict(kind="pred", pat="ACGT" * 15 + "ACG", k=2, indel=False, both=True, seqs=["tt" + "acgt" * 15 + "acgtt", revcomp_text("tt" + "acgt" * 15 + "acctt"), "acgt" * 15], tag="pred-corpus"),
+    dict(kind="pred", pat="GGGCAATCCTGAGCCAAT", k=2, indel=True, both=True, gc=True,
+         seqs=["gcaatcctgagccaattttt", revcomp_text("gcaatcctgagccaattttt"), "ttttgggcaatcctgagcca", revcomp_text("ttttgggcaatcctgagcca"), "ttttgggcaatcctgagcc"], tag="pred-corpus"),
+    dict(kind="pred", pat="A[", k=0, indel=False, both=True, seqs=["acgt"], malformed=True, tag="pred-corpus"),
+    dict(kind="pred", pat="", k=0, indel=False, both=True, seqs=["acgt"], malformed=True, tag="pred-corpus"),
+]
+
+
+def gen_pred_cases(ctx, n):
+    rng = ctx.rng
+    cases = [dict(c) for c in PRED_CORPUS]
+    for i in range(n):
+        pat = gen_pattern(rng) if rng.random() < 0.8 else gen_edge_pattern(rng, rng.choice([1, 2, 3, 5, 8, 13, 20, 33]))
+        P = parse_pattern(pat)
+        k = rng.choice([0, 0, 1, 1, 2, 2, 3, 4])
+        indel = rng.random() < 0.4
+        c = dict(kind="pred", pat=pat if rng.random() < 0.7 else pat.lower(), k=k, indel=indel, both=rng.random() < 0.7,
+                 seqs=gen_pred_seqs(rng, P, k, indel, rng.randrange(1, 8)))
+        if rng.random() < 0.15:
+            c["gc"] = True
+        cases.append(c)
+    return cases
+
+
+def gen_leftcut_cases(rng, n):
+    """primer sites cut by the LEFT end of the sequence or of the search window, the budget exactly used up by the missing leading
+    symbols (ManberIndel starts level e with e+1 bits: up to e leading pattern symbols deleted before any text), or one short of it"""
+    cases = []
+    fixed = [(6, 1), (10, 1), (10, 2), (18, 2), (18, 3), (25, 4), (40, 3), (63, 2)]
+    for i in range(len(fixed) + n):
+        m, k = fixed[i] if i < len(fixed) else (rng.randrange(4, 63), rng.randrange(1, 5))
+        pat = gen_pattern(rng, m, 0.0 if i % 2 == 0 else 0.15).replace("#", "")
+        P = parse_pattern(pat)
+        w = "".join(instance(rng, P))
+        tail = "".join(rng.choice("acgt") for _ in range(rng.randrange(0, 40)))
+        pre = "".join(rng.choice("acgt") for _ in range(rng.randrange(1, 30)))
+        for cut in sorted({k, max(k - 1, 0), min(k + 1, m - 1)}):
+            cases.append(dict(pat=pat, k=k, indel=True, seq=w[cut:] + tail, begin=0, length=-1, apis=True, tag="left-cut-site/sequence-start"))
+            cases.append(dict(pat=pat, k=k, indel=True, seq=pre + w + tail, begin=len(pre) + cut, length=-1, apis=True, tag="left-cut-site/window-begin"))
+        cases.append(dict(pat=pat, k=k, indel=True, seq=w[k:], begin=0, length=-1, apis=True, tag="left-cut-site/whole-sequence"))
+    return cases
+
+
+def gen_lifecycle_cases(ctx, n):
+    rng = ctx.rng
+    cases = []
+    for i in range(n):
+        c = gen_case(rng, m=rng.choice([4, 8, 12, 20, 33]))
+        c["freegc"] = True
+        c["gc"] = i % 2 == 0
+        c["tag"] = "lifecycle-free-then-gc"
+        if len(c["seq"]) > 2000:
+            c["seq"] = c["seq"][-300:]
+            c.pop("rcseq", None)
+        cases.append(c)
+    return cases
+
+
+def gen_boundary_length_cases(rng):
+    """patterns of exactly 63 positions (the longest accepted), with strings longer than 64 bytes (classes, '!', '#' are not positions)"""
+    cases = []
+    for deco in ("plain", "class", "mods"):
+        syms = [rng.choice("ACGT") for _ in range(63)]
+        if deco == "class":
+            strs = ["[%s%s]" % (x, rng.choice([y for y in "ACGT" if y != x])) if i % 3 == 0 else x for i, x in enumerate(syms)]
+        elif deco == "mods":
+            strs = [x + "#" if i % 7 == 0 else "!" + x if i % 11 == 5 else x for i, x in enumerate(syms)]
+        else:
+            strs = syms
+        pat = "".join(strs)
+        P = parse_pattern(pat)
+        w = "".join(instance(rng, P))
+        w1 = "".join(mutate(rng, list(w), 1, 0))
+        seq = w + "ac" + w1 + "g" + w[:62]
+        for k, indel in ((0, False), (1, False), (2, False), (1, True), (2, True)):
+            c = dict(pat=pat, k=k, indel=indel, seq=seq, begin=0, length=-1, apis=True, tag="boundary-length-63/" + deco)
+            if not indel:
+                c["rcseq"] = revcomp_text(seq)
+            cases.append(c)
     return cases
 
 
@@ -578,6 +731,12 @@ def gen_cases(ctx, n):
     for seq in ("ACGTACGT", "acgTAcgt", "ttacntttacgt", "nnnnnnnn", "ttacgtrtacgt", "TTACGTNNACGT"):
         for pat, k, indel in (("ACGT", 0, False), ("ACGT", 1, False), ("ACGT", 1, True), ("ACNT", 1, True), ("AAAT", 2, True)):
             cases.append(dict(pat=pat, k=k, indel=indel, seq=seq, begin=0, length=-1, apis=True, tag="dirty-text"))
+    # letters that are no IUPAC code (E F I J L O P Q Z): accepted by CheckPattern, their symbol set is empty (the position matches
+    # nothing), they are their own complement; outside the quantifier "IUPAC pattern", judged like any other symbol set
+    for pat, k, indel in (("ACEGT", 1, False), ("ACEGT", 0, False), ("ZCGT", 1, False), ("ACGJ", 1, False), ("ACEGT", 1, True), ("QACGTQ", 2, True)):
+        seq = "ttacagtttacegtttcgtacgtt"
+        cases.append(dict(pat=pat, k=k, indel=indel, seq=seq, begin=0, length=-1, apis=True, tag="non-iupac-letter",
+                          **({} if indel else dict(rcseq=revcomp_text(seq)))))
     for pat, k, indel in (("ACXT", 0, False), ("ACXT", 1, True), ("XXXX", 1, True), ("AXGT", 2, True)):
         cases.append(dict(pat=pat, k=k, indel=indel, seq="ttacgttttactttagtttaccttt", begin=0, length=-1, apis=True, tag="x-in-pattern"))
     # recycled ApatSequence: previous sequences of other lengths, linear or circular, then the real one
@@ -586,6 +745,19 @@ def gen_cases(ctx, n):
             cases.append(dict(pat="ACGTAC", k=1, indel=False, seq="ttacgtacttacgaactt", begin=0, length=-1, apis=True, prev=prev, prevcirc=circ, tag="recycled"))
             cases.append(dict(pat="ACGTAC", k=1, indel=True, seq="ttacgtacttacgaactt", begin=3, length=4, apis=True, prev=prev, prevcirc=circ, tag="recycled"))
     cases += gen_window_cases(rng, 12 if ctx.quick else 150)
+    cases += gen_leftcut_cases(rng, 6 if ctx.quick else 200)
+    cases += gen_boundary_length_cases(rng)
+    cases.append(dict(kind="locate", pat="", seq="acgt", tag="locate-empty-pattern"))
+    cases.append(dict(kind="locate", pat="", seq="", tag="locate-empty-pattern"))
+    # object lifecycles: pattern, complemented pattern and sequences (fresh and recycled) left to the finalizers, then used again
+    for prev in (None, "acgtacgtacgtacgt", "acgt" * 100):
+        for indel in (False, True):
+            c = dict(pat="ACGTAC", k=1, indel=indel, seq="ttacgtacttacgaactt", begin=0, length=-1, apis=True, gc=True, tag="lifecycle-finalizers")
+            if prev is not None:
+                c["prev"] = prev
+            if not indel:
+                c["rcseq"] = revcomp_text(c["seq"])
+            cases.append(c)
     for m in range(1, 64):                      # every pattern length, match touching both ends of the text
         pat = gen_pattern(rng, m, 0.15)
         P = parse_pattern(pat)
@@ -673,6 +845,8 @@ def judge(c, o):
     bad = []
     if c.get("kind") == "locate":
         return judge_locate(c, o)
+    if c.get("kind") == "pred":
+        return judge_pred(c, o)
     P = parse_pattern(c["pat"])
     if c.get("malformed"):
         if o["kind"] != "paterr":
@@ -750,6 +924,10 @@ def judge_apis(c, o, P, t):
         bad.append(("filter", msg))
     realign = indel and k > 0
     exact_ok = plain_text(c["seq"]) and all(ch in "ACGTURYMKSWBDHVNX" for ch in c["pat"].upper())
+    # reads holding IUPAC ambiguity codes, pattern of IUPAC letters (no X): the automaton counts such a symbol as a mismatch against
+    # every pattern position, the re-alignment (obialign._samenuc) as compatible: the re-aligned count can only be LOWER than the
+    # edit distance under the automaton's symbol sets (known finding text-ambiguity-realign); higher is a violation
+    amb = (not exact_ok) and all(ch in "acgtrymkswbdhvnu" for ch in c["seq"].lower()) and all(ch in "ACGTURYMKSWBDHVN" for ch in c["pat"].upper())
     # AllMatches
     if o.get("all_panic"):
         bad.append(("all-panic", o["all_panic"]))
@@ -764,6 +942,10 @@ def judge_apis(c, o, P, t):
                 bad.append(("all-span", [s, e, d]))
             elif exact_ok and (edit_distance(P, t[s:e]) != d or d > k):
                 bad.append(("all-count", dict(reported=[s, e, d], edit_distance=edit_distance(P, t[s:e]))))
+            elif amb and [s, e, d] not in find and (d > k or d > edit_distance(P, t[s:e])):
+                bad.append(("all-count", dict(reported=[s, e, d], edit_distance=edit_distance(P, t[s:e]))))
+            elif amb and [s, e, d] not in find and d < edit_distance(P, t[s:e]):
+                bad.append(("all-count-text-ambiguity", dict(reported=[s, e, d], edit_distance_automaton_semantics=edit_distance(P, t[s:e]))))
     # BestMatch
     if o.get("best_panic"):
         bad.append(("best-panic", o["best_panic"]))
@@ -787,12 +969,67 @@ def judge_apis(c, o, P, t):
                     bad.append(("best-count", dict(reported=[s, e, d], edit_distance=edit_distance(P, t[s:e]))))
                 elif exact_ok and d > min(h[2] for h in find):
                     bad.append(("best-count-above-automaton", dict(reported=[s, e, d], automaton=min(h[2] for h in find))))
+                elif amb and min(h[2] for h in find) > 0 and d > edit_distance(P, t[s:e]):
+                    bad.append(("best-count", dict(reported=[s, e, d], edit_distance=edit_distance(P, t[s:e]))))
+                elif amb and min(h[2] for h in find) > 0 and d < edit_distance(P, t[s:e]):
+                    bad.append(("best-count-text-ambiguity", dict(reported=[s, e, d], edit_distance_automaton_semantics=edit_distance(P, t[s:e]))))
+    return bad
+
+
+def strand_matches(P, k, indel, t):
+    """True / False: some occurrence of P lies in the whole text t within the budget; None when the statement does not decide
+    (indels + obligatory positions: between the two readings of the sandwich)"""
+    if not indel or k == 0:
+        return bool(find_all_spec(P, k, t, 0, len(t)))
+    if not any(ob for _, ob in P):
+        return any(d <= k for d in sellers(P, t, 0, len(t), False))
+    if any(d <= k for d in sellers(P, t, 0, len(t), True)):
+        return True
+    if not any(d <= k for d in sellers(P, t, 0, len(t), False)):
+        return False
+    return None
+
+
+def pred_spec(P, k, indel, both, seq):
+    """executable statement for IsPatternMatchSequence / obigrep --approx-pattern: the pattern occurs in the sequence, or (both strands)
+    in its reverse complement - the second clause of the property read from the sequence side, independent of complementPattern"""
+    fwd = strand_matches(P, k, indel, text_codes(seq))
+    if fwd or not both:
+        return fwd
+    if indel and k > 0 and any(ob for _, ob in P):
+        # indels + obligatory positions: the code's reading is not symmetric under reversal (a text symbol may be inserted before an
+        # obligatory position, not after it): the sandwich is taken for the complemented pattern on the sequence itself
+        rev = strand_matches(comp_pattern_spec(P), k, indel, text_codes(seq))
+    else:
+        rev = strand_matches(P, k, indel, text_codes(revcomp_text(seq.lower())))
+    if rev:
+        return True
+    return None if (fwd is None or rev is None) else False
+
+
+def judge_pred(c, o):
+    P = parse_pattern(c["pat"])
+    if c.get("malformed"):
+        return [] if o["kind"] == "paterr" else [("malformed-accepted", o["kind"])]
+    if o["kind"] != "ok":
+        return [("not-ok", o.get("err", o["kind"]))]
+    if o["patlen"] != len(P) or len(o.get("preds") or []) != len(c["seqs"]):
+        return [("pred-shape", o.get("patlen"))]
+    bad = []
+    for i, (seq, got) in enumerate(zip(c["seqs"], o["preds"])):
+        exp = pred_spec(P, c["k"], c["indel"], c["both"], seq)
+        if exp is not None and exp != got:
+            bad.append(("predicate", dict(sequence_index=i, sequence=seq, expected=exp, reported=got)))
+            break
     return bad
 
 
 def judge_locate(c, o):
     P = parse_pattern(c["pat"])
     t = text_codes(c["seq"])
+    if c["pat"] == "":
+        # outside the quantifier (patterns have 1..64 symbols): LocatePattern must refuse, not answer a span
+        return [] if (o.get("loc_panic") or "").startswith("refused") else [("locate-empty-pattern-not-refused", o.get("loc") or o.get("loc_panic"))]
     if o.get("loc_panic"):
         return [("locate-panic", o["loc_panic"])]
     s, e, d = o["loc"]
@@ -805,6 +1042,205 @@ def judge_locate(c, o):
     elif edit_distance(P, t[s:e]) != d:
         bad.append(("locate-count", dict(reported=[s, e, d], edit_distance=edit_distance(P, t[s:e]))))
     return bad
+
+
+
+# ------------------------------------------------------------------ command-line glue: obigrep --approx-pattern (options.go -> predicat.go)
+def gen_cli_cases(ctx, n):
+    rng = ctx.rng
+    fixed = [
+        dict(kind="cli", pats=["AACC"], k=0, indel=False, only_forward=False, extra=[], stdin=False,
+             seqs=["ccggaacc", "ttggttaa", "ttttt", "aac", "AACC", "ggtt", "ggt"], tag="cli-corpus"),
+        dict(kind="cli", pats=["AACC"], k=0, indel=False, only_forward=True, extra=["--force-one-cpu"], stdin=True,
+             seqs=["ccggaacc", "ttggttaa", "ttttt", "aac", "AACC", "ggtt", "ggt"], tag="cli-corpus"),
+        dict(kind="cli", pats=["AACCT", "GGC"], k=1, indel=True, only_forward=False, extra=["--batch-size", "2"], stdin=False,
+             seqs=["ttaacgttggc", "ttacctt", "ttaggttgcc", "aggtgc", "ggt", "tt", "gccaggt"], tag="cli-corpus"),
+        dict(kind="cli", pats=["A["], k=0, indel=False, only_forward=False, extra=[], stdin=False, seqs=["acgt"], malformed=True, tag="cli-corpus"),
+    ]
+    cases = fixed
+    for _ in range(n):
+        npat = 1 if rng.random() < 0.7 else 2
+        k = rng.choice([0, 1, 1, 2, 3])
+        indel = rng.random() < 0.4
+        pats, seqs = [], []
+        for _ in range(npat):
+            pat = gen_pattern(rng, rng.choice([3, 5, 8, 12, 18, 25, 40, 63]), rng.choice([0.0, 0.15, 0.5]))
+            pats.append(pat if rng.random() < 0.7 else pat.lower())
+            seqs += gen_pred_seqs(rng, parse_pattern(pat), k, indel, rng.randrange(4, 14))
+        if npat == 2:               # some sequences carry a site of both patterns
+            P0, P1 = parse_pattern(pats[0]), parse_pattern(pats[1])
+            for _ in range(4):
+                a, b = "".join(instance(rng, P0)), "".join(instance(rng, P1))
+                if rng.random() < 0.5:
+                    b = revcomp_text(b)
+                seqs.append("tt" + a + "cagt" + b + "a")
+        rng.shuffle(seqs)
+        extra = rng.choice([[], [], ["--force-one-cpu"], ["--max-cpu", "2"], ["--batch-size", "1"], ["--batch-size", "3", "--max-cpu", "3"], ["--no-order"]])
+        cases.append(dict(kind="cli", pats=pats, k=k, indel=indel, only_forward=rng.random() < 0.3, extra=extra, stdin=rng.random() < 0.25, seqs=seqs))
+    return cases
+
+
+def cli_twins(c):
+    """the in-process predicate cases (vh c10 kind pred) of one command-line case"""
+    return [dict(kind="pred", pat=p, k=c["k"], indel=c["indel"], both=not c["only_forward"], seqs=c["seqs"], tag="cli-twin",
+                 **({"malformed": True} if c.get("malformed") else {})) for p in c["pats"]]
+
+
+def run_cli(ctx, bindir, c, num=0):
+    import tempfile
+    from vlib import sh
+    d = tempfile.mkdtemp(prefix="c10cli_")
+    path = os.path.join(d, "in.fasta")
+    with open(path, "w") as f:
+        for i, x in enumerate(c["seqs"]):
+            f.write(">s%04d\n%s\n" % (i, x))
+    argv = [os.path.join(bindir, "obigrep")]
+    for pat in c["pats"]:
+        argv += ["--approx-pattern", pat]
+    if c["k"] or num % 2:
+        argv += ["--pattern-error", str(c["k"])]
+    if c["indel"]:
+        argv.append("--allows-indels")
+    if c["only_forward"]:
+        argv.append("--only-forward")
+    argv += ["--no-progressbar"] + list(c.get("extra") or [])
+    try:
+        if c.get("stdin"):
+            rc, out, err, dt = sh(argv, timeout=120, inp=open(path, "rb").read())
+        else:
+            rc, out, err, dt = sh(argv + [path], timeout=120)
+    finally:
+        import shutil
+        shutil.rmtree(d, ignore_errors=True)
+    ids = [int(l[2:].split()[0]) for l in out.splitlines() if l.startswith(">s")]
+    return dict(rc=rc, selected=sorted(ids), argv=argv[1:], err=err[-300:] if rc else "")
+
+
+def cli_term(c, o):
+    return "CGrep [%s] %d %s %s [%s] [%s]" % (";".join(bytes_term(p.encode()) for p in c["pats"]), c["k"], "true" if c["only_forward"] else "false",
+                                            "true" if c["indel"] else "false",
+                                            ";".join(bytes_term(x.lower().encode("latin-1")) for x in c["seqs"]),
+                                            ";".join(zt(i) for i in o["selected"]))
+
+
+def judge_cli(c, o, twins_obs):
+    """direct oracle (every --approx-pattern occurs, on either strand unless --only-forward) + differential against the in-process
+    predicate objects (which the oracle and the model judge on their own)"""
+    if c.get("malformed"):
+        return [] if (o["rc"] != 0 and not o["selected"]) else [("cli-malformed-pattern-accepted", o)]
+    if o["rc"] != 0:
+        return [("cli-failed", o["err"])]
+    bad = []
+    Ps = [parse_pattern(p) for p in c["pats"]]
+    exp, undecided = [], set()
+    for i, x in enumerate(c["seqs"]):
+        v = [pred_spec(P, c["k"], c["indel"], not c["only_forward"], x) for P in Ps]
+        if any(a is False for a in v):
+            continue
+        if any(a is None for a in v):
+            undecided.add(i)
+        else:
+            exp.append(i)
+    got = [i for i in o["selected"] if i not in undecided]
+    if got != exp:
+        diff = sorted(set(got) ^ set(exp))
+        bad.append(("cli-selection", dict(expected=exp, wrongly_selected=[i for i in diff if i in got], missed=[i for i in diff if i in exp],
+                                          first_sequence=c["seqs"][diff[0]] if diff else None)))
+    if twins_obs is not None and all(t.get("kind") == "ok" for t in twins_obs):
+        inproc = [i for i in range(len(c["seqs"])) if all(t["preds"][i] for t in twins_obs)]
+        if inproc != o["selected"]:
+            bad.append(("cli-differs-from-in-process", dict(in_process=inproc, command=o["selected"])))
+    return bad
+
+
+
+# ------------------------------------------------------------------ command-line glue: obiannotate --pattern (BestMatch on both strands)
+def gen_annot_cases(ctx, n):
+    rng = ctx.rng
+    cases = [dict(kind="annot", pat="AACC", k=1, indel=True, only_forward=False, extra=[],
+                  seqs=["ttacgttt", "ttttt", "acgt", "ttaacgtt", "ccggaacc", "ttggttaa", "aac", "gtt"], tag="annot-corpus"),
+             dict(kind="annot", pat="AACC", k=0, indel=False, only_forward=True, extra=["--force-one-cpu"],
+                  seqs=["ttacgttt", "ccggaacc", "ttggttaa", "aaccaacc"], tag="annot-corpus")]
+    for _ in range(n):
+        pat = gen_pattern(rng, rng.choice([3, 5, 8, 12, 18, 25, 40]), rng.choice([0.0, 0.15, 0.5]))
+        k = rng.choice([0, 1, 1, 2, 3])
+        indel = rng.random() < 0.5
+        seqs = ["".join(ch if ch in "acgt" else "a" for ch in x.lower()) for x in gen_pred_seqs(rng, parse_pattern(pat), k, indel, rng.randrange(4, 12))]
+        cases.append(dict(kind="annot", pat=pat, k=k, indel=indel, only_forward=rng.random() < 0.3, seqs=seqs,
+                          extra=rng.choice([[], [], ["--force-one-cpu"], ["--batch-size", "1"], ["--max-cpu", "2"]])))
+    return cases
+
+
+def run_annot(ctx, bindir, c):
+    import tempfile, shutil
+    from vlib import sh
+    d = tempfile.mkdtemp(prefix="c10ann_")
+    path = os.path.join(d, "in.fasta")
+    with open(path, "w") as f:
+        for i, x in enumerate(c["seqs"]):
+            f.write(">s%04d\n%s\n" % (i, x))
+    argv = [os.path.join(bindir, "obiannotate"), "--pattern", c["pat"], "--pattern-error", str(c["k"])]
+    if c["indel"]:
+        argv.append("--allows-indels")
+    if c["only_forward"]:
+        argv.append("--only-forward")
+    argv += ["--no-progressbar"] + list(c.get("extra") or [])
+    try:
+        rc, out, err, dt = sh(argv + [path], timeout=120)
+    finally:
+        shutil.rmtree(d, ignore_errors=True)
+    recs = {}
+    for l in out.splitlines():
+        if l.startswith(">s"):
+            head = l[1:].split(None, 1)
+            try:
+                recs[int(head[0][1:])] = json.loads(head[1]) if len(head) > 1 and head[1].strip().startswith("{") else {}
+            except ValueError:
+                recs[int(head[0][1:])] = dict(unparsed=head[1][:200])
+    return dict(rc=rc, records=recs, argv=argv[1:], err=err[-300:] if rc else "")
+
+
+def best_usable(o, n):
+    b = o.get("best") if o.get("kind") == "ok" else None
+    return b if (b and b[3] and b[0] >= 0 and b[1] <= n) else None
+
+
+def annot_expected(c, i, o1, o2):
+    """what obiannotate --pattern has to write for sequence i, from the in-process BestMatch observations (pattern, then the
+    complemented pattern when nothing usable was found and both strands are searched) - themselves judged by oracle and model"""
+    x = c["seqs"][i]
+    b = best_usable(o1, len(x))
+    if b:
+        return dict(pattern=c["pat"], pattern_error=b[2], pattern_location="%d..%d" % (b[0] + 1, b[1]), pattern_match=x[b[0]:b[1]])
+    if not c["only_forward"] and o2 is not None:
+        b = best_usable(o2, len(x))
+        if b:
+            return dict(pattern=c["pat"], pattern_error=b[2], pattern_location="complement(%d..%d)" % (b[0] + 1, b[1]),
+                        pattern_match=revcomp_text(x[b[0]:b[1]]))
+    return {}
+
+
+def judge_annot(c, o, exp):
+    if o["rc"] != 0:
+        return [("annot-failed", o["err"])]
+    if sorted(o["records"]) != list(range(len(c["seqs"]))):
+        return [("annot-records", sorted(o["records"])[:10])]
+    for i, x in enumerate(c["seqs"]):
+        got = {k: v for k, v in o["records"][i].items() if k.startswith("pattern")}
+        if exp[i] is not None and got != exp[i]:
+            return [("annot-best-match", dict(sequence_index=i, sequence=x, expected=exp[i], written=got))]
+        if got:                 # direct: the span is inside the sequence, the text is the span (reverse-complemented on the other strand)
+            m = re.match(r"^(complement\()?(\d+)\.\.(\d+)\)?$", str(got.get("pattern_location")))
+            if not m or not (1 <= int(m.group(2)) <= int(m.group(3)) + 1 <= len(x) + 1):
+                return [("annot-location", dict(sequence_index=i, sequence=x, written=got))]
+            span = x[int(m.group(2)) - 1:int(m.group(3))]
+            # the count is within the budget on patterns of IUPAC letters; with classes / '!' / '#' the re-alignment reads the bytes of the
+            # pattern string (outside the agreement domain, see META note): BestMatch does not filter it by the budget
+            letters = all(ch in "ACGTURYMKSWBDHVN" for ch in c["pat"].upper())
+            if got.get("pattern_match") != (revcomp_text(span) if m.group(1) else span) or got.get("pattern_error", -1) < 0 or \
+                    (letters and got["pattern_error"] > c["k"]):
+                return [("annot-match-text", dict(sequence_index=i, sequence=x, written=got))]
+    return []
 
 
 # ------------------------------------------------------------------ Coq rendering
@@ -833,6 +1269,11 @@ def case_term(c, o):
         return "CLocate %s %s (%s,%s,%s)" % (bytes_term(c["pat"].encode()), bytes_term(c["seq"].encode()), zt(o["loc"][0]), zt(o["loc"][1]), zt(o["loc"][2]))
     if o.get("kind") == "paterr":
         return "CPatErr %s" % bytes_term(c["pat"].encode())
+    if c.get("kind") == "pred":
+        return "CPred %s %d %s %s [%s] [%s]" % (bytes_term(c["pat"].encode()), c["k"], "true" if c["both"] else "false",
+                                               "true" if c["indel"] else "false",
+                                               ";".join(bytes_term(x.lower().encode("latin-1")) for x in c["seqs"]),
+                                               ";".join("true" if b else "false" for b in o["preds"]))
     raw = list((o.get("stored") if o.get("stored") is not None else c["seq"].lower()).encode("latin-1"))
     apis = "None"
     if c.get("apis") and not o.get("all_panic") and not o.get("best_panic") and o.get("best") is not None:
@@ -850,10 +1291,12 @@ def case_term(c, o):
 
 KNOWN_M64 = "m64-rejected"
 KNOWN_X = "x-pattern-realign"
+KNOWN_N = "text-ambiguity-realign"
 
 
-def evaluate(ctx, cases, broken, label, report=True, corr=True, judge_fn=None):
-    obs = ctx.vh_robust("c10", [{k: v for k, v in c.items() if k not in ("tag", "malformed", "junk")} for c in cases], timeout=600, one_timeout=10)
+def evaluate(ctx, cases, broken, label, report=True, corr=True, judge_fn=None, binary=None):
+    obs = ctx.vh_robust("c10", [{k: v for k, v in c.items() if k not in ("tag", "malformed", "junk")} for c in cases], timeout=600, one_timeout=10,
+                        binary=binary)
     nviol = 0
     failed = set()
     seen_clauses = set()
@@ -868,6 +1311,12 @@ def evaluate(ctx, cases, broken, label, report=True, corr=True, judge_fn=None):
                                "re-alignment of an indel hit counts it as an error (AllMatches / BestMatch count, hit possibly dropped)")
             failed.add(i)
             bad = []
+        if bad and all(b[0] in ("all-count-text-ambiguity", "best-count-text-ambiguity") for b in bad) and ctx.kf_match(KNOWN_N):
+            ctx.known(KNOWN_N, "a read symbol that is an IUPAC ambiguity code (n, r, y, ...) mismatches every pattern position in the C automaton "
+                               "(FindAllIndex count) but is compatible with it in obialign._samenuc: the count of a re-aligned indel match "
+                               "(AllMatches / BestMatch) is below the edit distance the automaton reported for the same span")
+            failed.add(i)
+            bad = []
         if bad:
             failed.add(i)
             nviol += 1
@@ -878,11 +1327,11 @@ def evaluate(ctx, cases, broken, label, report=True, corr=True, judge_fn=None):
     if not corr:
         return obs, [], failed
     idx = [i for i, (c, o) in enumerate(zip(cases, obs))
-           if (c.get("kind") == "locate" and o.get("loc") is not None) or
+           if (c.get("kind") == "locate" and o.get("loc") is not None and c["pat"] != "") or
               (c.get("kind") != "locate" and (o.get("kind") == "paterr" or (o.get("kind") == "ok" and 0 < o["patlen"] < MAXPAT)))]
     # sequences of thousands of symbols are heavy inside Coq (lists of N): at most 12 of them go through the model, in small shards
     # of their own; the others are judged by the direct oracle only
-    longs = [i for i in idx if cases[i].get("kind") != "locate" and len(cases[i]["seq"]) > 2000]
+    longs = [i for i in idx if cases[i].get("kind") != "locate" and len(cases[i].get("seq", "")) > 2000]
     keep_long = set(longs[:12])
     ctx.cov["long_sequences_oracle_only"] = ctx.cov.get("long_sequences_oracle_only", 0) + len(longs) - len(keep_long)
     short = [i for i in idx if i not in set(longs)]
@@ -908,6 +1357,11 @@ def m64_cases(ctx, n):
     """patterns of 64 symbols (in the quantifier of the property) and longer ones (outside it)"""
     rng = ctx.rng
     cases = [dict(pat="ACGT" * 16, k=0, indel=False, seq="tt" + "acgt" * 16 + "tt", begin=0, length=-1, apis=False, tag="m64")]
+    for m in (64, 65):              # exactly at and just above the limit, every mode, strings with classes and modifiers
+        for pat in ("ACGT" * 16 + "A" * (m - 64), "[AC]" + "CGTA" * 15 + "CGT" + "A" * (m - 64), "A#" + "!C" + "GTAC" * 15 + "GT" + "A" * (m - 64)):
+            w = "".join(instance(rng, parse_pattern(pat)))
+            for k, indel in ((0, False), (1, False), (1, True)):
+                cases.append(dict(pat=pat, k=k, indel=indel, seq="tt" + w + "ttt" + w[1:] + "t", begin=0, length=-1, apis=False, tag="m%d" % m))
     for i in range(n):
         m = 64 if i % 2 == 0 else rng.choice([65, 66, 70, 100, 127, 128, 129, 200])
         pat = gen_pattern(rng, m, rng.choice([0.0, 0.0, 0.15]))
@@ -943,6 +1397,14 @@ def judge_m64(ctx, c64, o64):
 
 
 def run(ctx, broken):
+    import time
+    clock = [time.time()]
+    phases = ctx.cov.setdefault("phase_seconds", {})
+
+    def lap(name):
+        now = time.time()
+        phases[name] = round(phases.get(name, 0) + now - clock[0], 1)
+        clock[0] = now
     t = getattr(ctx, "_c10_tables", None) or dump_tables(ctx)
     replay_tables(ctx, t)
     n = 300 if ctx.quick else 8000
@@ -954,7 +1416,122 @@ def run(ctx, broken):
         ex = gen_exhaustive()
         cases += ex
         ctx.cov["exhaustive"] = "every pattern over {A,C} of 1..3 symbols x every text over {a,c} of 0..6 symbols x budgets 0..2 x {mismatch, indel}: %d cases" % len(ex)
+    lap("generate")
     obs, mism, failed = evaluate(ctx, cases, broken, "main")
+    lap("main: real code + oracle + model")
+    # round 3: the predicate behind obigrep --approx-pattern (predicat.go), in process (oracle + model) and through the command
+    # line (oracle + differential against the in-process predicate objects)
+    extra_mism = []
+    bindir, berr = ctx.build_cmds(["obigrep", "obiannotate"])
+    lap("build obigrep")
+    if bindir is None:
+        broken.append(dict(kind="command-build", detail=berr))
+    clis = gen_cli_cases(ctx, 10 if ctx.quick else 300) if bindir else []
+    pc = gen_pred_cases(ctx, 60 if ctx.quick else 2500)
+    if not ctx.quick:
+        import itertools
+        texts = ["".join(t) for L in range(0, 5) for t in itertools.product("acgt", repeat=L)]
+        nex = 0
+        for m in (1, 2, 3):
+            for p in itertools.product("AC", repeat=m):
+                for both in (False, True):
+                    for k, indel in ((0, False), (1, False), (1, True)):
+                        pc.append(dict(kind="pred", pat="".join(p), k=k, indel=indel, both=both, seqs=texts, tag="pred-exhaustive"))
+                        nex += len(texts)
+        ctx.cov["exhaustive_predicate"] = ("every pattern over {A,C} of 1..3 symbols x {forward, both strands} x {k=0, k=1 mismatch, k=1 indel} x every "
+                                           "sequence over {a,c,g,t} of 0..4 symbols: %d predicate evaluations" % nex)
+    twin_at = []
+    for c in clis:
+        tw = cli_twins(c)
+        twin_at.append((len(pc), len(pc) + len(tw)))
+        pc += tw
+    opred, mpred, fpred = evaluate(ctx, pc, broken, "pred")
+    extra_mism += [(pc[i], opred[i]) for i in mpred if i not in fpred]
+    lap("predicate: real code + oracle + model")
+    ncli_bad = 0
+    cli_terms, cli_idx = [], []
+    for num, (c, (a, b)) in enumerate(zip(clis, twin_at)):
+        o = run_cli(ctx, bindir, c, num)
+        bad = judge_cli(c, o, opred[a:b])
+        if o["rc"] == 0 and not c.get("malformed") and all(0 < len(parse_pattern(p) or []) < MAXPAT for p in c["pats"]):
+            cli_terms.append(cli_term(c, o))
+            cli_idx.append(num)
+        if bad:
+            ncli_bad += 1
+            if ncli_bad <= 3:
+                ctx.violation("cli_%d_%s" % (num, bad[0][0]), dict(property="C10", kind="command-line", clause=bad[0][0], case=c, implementation=o,
+                                                                   detail=[list(x) for x in bad][:3]))
+    lap("obigrep runs")
+    # obiannotate --pattern: BestMatch of the pattern, then of the complemented pattern, written as pattern_location / _error / _match
+    ann = gen_annot_cases(ctx, 5 if ctx.quick else 150) if bindir else []
+    tw1, at1 = [], []
+    for c in ann:
+        at1.append(len(tw1))
+        tw1 += [dict(pat=c["pat"], k=c["k"], indel=c["indel"], seq=x, begin=0, length=len(x), apis=True, rcseq=revcomp_text(x), tag="annot-twin")
+                for x in c["seqs"]]
+    o1, m1, f1 = evaluate(ctx, tw1, broken, "annot") if tw1 else ([], [], set())
+    extra_mism += [(tw1[i], o1[i]) for i in m1 if i not in f1]
+    tw2, back = [], {}
+    for j, (t, o) in enumerate(zip(tw1, o1)):
+        if o.get("kind") == "ok" and o.get("cpat") and 0 < o["patlen"] < MAXPAT:
+            back[j] = len(tw2)
+            tw2.append(dict(pat=o["cpat"], k=t["k"], indel=t["indel"], seq=t["seq"], begin=0, length=len(t["seq"]), apis=True, tag="annot-twin-complement"))
+    o2, m2, f2 = evaluate(ctx, tw2, broken, "annotrev") if tw2 else ([], [], set())
+    extra_mism += [(tw2[i], o2[i]) for i in m2 if i not in f2]
+    nann_bad = 0
+    for num, (c, a) in enumerate(zip(ann, at1)):
+        o = run_annot(ctx, bindir, c)
+        exp = []
+        for i in range(len(c["seqs"])):
+            j = a + i
+            usable = o1[j].get("kind") == "ok" and o1[j].get("best") is not None and j not in f1 and \
+                (j not in back or (o2[back[j]].get("best") is not None and back[j] not in f2))
+            exp.append(annot_expected(c, i, o1[j], o2[back[j]] if j in back else None) if usable else None)
+        bad = judge_annot(c, o, exp)
+        if bad:
+            nann_bad += 1
+            if nann_bad <= 3:
+                ctx.violation("annot_%d_%s" % (num, bad[0][0]), dict(property="C10", kind="command-line", clause=bad[0][0], case=c,
+                                                                     implementation=dict(rc=o["rc"], argv=o["argv"], records={str(k): v for k, v in o["records"].items()}),
+                                                                     detail=[list(x) for x in bad][:3]))
+    ctx.cov["command_line_obiannotate"] = dict(runs=len(ann), failing=nann_bad, sequences=sum(len(c["seqs"]) for c in ann),
+                                               forward=sum(1 for c, a in zip(ann, at1) for i in range(len(c["seqs"])) if best_usable(o1[a + i], len(c["seqs"][i]))),
+                                               complement=sum(1 for c, a in zip(ann, at1) if not c["only_forward"] for i in range(len(c["seqs"]))
+                                                              if not best_usable(o1[a + i], len(c["seqs"][i])) and (a + i) in back
+                                                              and best_usable(o2[back[a + i]], len(c["seqs"][i]))),
+                                               only_forward=sum(1 for c in ann if c["only_forward"]), indel=sum(1 for c in ann if c["indel"]))
+    lap("obiannotate runs + twins")
+    # the command-line runs through the model too ([grep_select], theorem C10_obigrep_selection)
+    cli_mism = []
+    if cli_terms:
+        badc, errc = ctx.correspond("cli", IMPORTS, cli_terms, shard=25)
+        if badc is None:
+            broken.append(dict(kind="correspondence", detail=errc))
+        else:
+            cli_mism = [cli_idx[i] for i in badc]
+            if cli_mism and not ncli_bad:
+                broken.append(dict(kind="correspondence", name="corr:C10/obigrep --approx-pattern", first_diverging_case=clis[cli_mism[0]],
+                                   n_diverging=len(cli_mism)))
+    npred_seq = sum(len(c["seqs"]) for c in pc)
+    ctx.cov["predicate"] = dict(objects=len(pc), sequences=npred_seq,
+                                true=sum(sum(1 for b in (o.get("preds") or []) if b) for o in opred),
+                                both_strands=sum(1 for c in pc if c["both"]), indel=sum(1 for c in pc if c["indel"]),
+                                reverse_strand_only=sum(1 for c, o in zip(pc, opred) if o.get("kind") == "ok" and c["both"]
+                                                        for x, b in zip(c["seqs"], o["preds"])
+                                                        if b and strand_matches(parse_pattern(c["pat"]), c["k"], c["indel"], text_codes(x)) is False),
+                                model_vs_impl_mismatches=len(mpred))
+    ctx.cov["command_line"] = dict(obigrep_runs=len(clis), failing=ncli_bad, sequences=sum(len(c["seqs"]) for c in clis),
+                                   through_the_model=len(cli_terms), model_vs_command_mismatches=len(cli_mism),
+                                   options=sorted({" ".join(c.get("extra") or []) for c in clis}), stdin=sum(1 for c in clis if c.get("stdin")),
+                                   two_patterns=sum(1 for c in clis if len(c["pats"]) > 1), only_forward=sum(1 for c in clis if c["only_forward"]))
+    # object lifecycles: Free followed by the garbage collector (Free must disconnect the finalizer), then the objects of the case are
+    # left to the finalizers; the C allocator runs without its per-thread cache so that a block released twice aborts the process
+    lc = gen_lifecycle_cases(ctx, 12 if ctx.quick else 300)
+    olc, mlc, flc = evaluate(ctx, lc, broken, "lifecycle", binary="env GLIBC_TUNABLES=glibc.malloc.tcache_count=0 " + ctx.vh_bin)
+    extra_mism += [(lc[i], olc[i]) for i in mlc if i not in flc]
+    ctx.cov["lifecycle"] = dict(cases=len(lc), crashed=sum(1 for o in olc if o.get("kind") == "crash"), with_hits=sum(1 for o in olc if o.get("find")),
+                                note="Free + garbage collector, then finalizers only; glibc tcache off (a double free aborts)")
+    lap("lifecycle")
     # texts with bytes that are not letters: observation only (what the code does is recorded, the model says the same or not)
     nl = nonletter_cases(ctx.rng, 10 if ctx.quick else 200)
     onl, mnl, _ = evaluate(ctx, nl, [], "nonletter", report=False, judge_fn=lambda c, o: [])
@@ -964,9 +1541,11 @@ def run(ctx, broken):
                                             "LocatePattern compares the byte itself")
     # strings accepted by CheckPattern although outside the documented grammar ("A##", "A!#", "!!A"): the property says nothing
     # about them; recorded only (does the model still follow the C code on them?), never an alarm
-    junk = [dict(pat=pat, k=k, indel=False, seq="acgtaccgtagnacaacc", begin=0, length=-1, apis=False, junk=True, tag="junk") for pat in JUNK for k in (0, 1)]
+    junk = [dict(pat=pat, k=k, indel=False, seq="acgtaccgtagnacaacc", begin=0, length=-1, apis=False, junk=True, tag="junk",
+                 rcseq=revcomp_text("acgtaccgtagnacaacc")) for pat in JUNK for k in (0, 1)]
     ojunk, mjunk, _ = evaluate(ctx, junk, [], "junk", report=False)
     ctx.cov["outside_grammar"] = dict(cases=len(junk), accepted=sum(1 for o in ojunk if o.get("kind") == "ok"), model_differs=len(mjunk),
+                                      complement_refused=sorted({c["pat"] for c, o in zip(junk, ojunk) if o.get("cerr")}),
                                       note="observation only: strings such as A## or A!# pass CheckPattern; the model transcribes what EncodePattern does with them")
     # patterns of 64 symbols (maximum of the property's quantifier) and more: refused by MakeApatPattern as repaired
     c64 = m64_cases(ctx, 20 if ctx.quick else 300)
@@ -974,17 +1553,20 @@ def run(ctx, broken):
     miss64 = judge_m64(ctx, c64, o64)
     mism = mism + [len(cases) + i for i in mism64]
     ctx.cov["m64_cases"] = len(c64)
+    lap("non-letter, outside-grammar, m64")
     ctx.cov["m64_wrong"] = miss64
-    ctx.cov["evaluations"] = len(cases) + len(c64)
+    ctx.cov["evaluations"] = len(cases) + len(c64) + npred_seq + len(clis) + len(tw1) + len(tw2) + len(ann)
 
     def nontrivial(c, o):
         if c.get("kind") == "locate":
             return o.get("loc") is not None and o["loc"][2] > 0
         return o.get("kind") == "ok" and bool(o.get("find"))
-    ctx.cov["distinct_nontrivial"] = len({json.dumps(c, sort_keys=True) for c, o in zip(cases, obs) if nontrivial(c, o)})
+    ctx.cov["distinct_nontrivial"] = len({json.dumps(c, sort_keys=True) for c, o in zip(cases, obs) if nontrivial(c, o)}) + \
+        len({json.dumps(c, sort_keys=True) for c, o in zip(pc, opred) if any(o.get("preds") or [])})
     ctx.cov["rule"] = ("patterns of 1..63 positions (plain, IUPAC, [classes], ! negation, # obligatory) x planted / mutated / low-complexity texts "
                        "x budgets 0..4 x {mismatch, indel} x windows x recycled or fresh ApatSequence; non-trivial = at least one hit reported "
-                       "(locate cases: a re-alignment with at least one error); distinct = distinct case")
+                       "(locate cases: a re-alignment with at least one error; predicate objects: true on at least one sequence); "
+                       "distinct = distinct case")
     dist = {}
     for c, o in zip(cases, obs):
         if c.get("kind") == "locate":
@@ -998,9 +1580,14 @@ def run(ctx, broken):
             key = "%s/k%d/m%s/%s" % ("indel" if c["indel"] else "sub", c["k"], "1-4" if len(P) < 5 else "5-31" if len(P) < 32 else "32-63",
                                     "hit" if o.get("find") else "nohit")
         dist[key] = dist.get(key, 0) + 1
+    for c, o in zip(pc, opred):
+        key = "predicate/%s/%s/k%d/%s" % ("indel" if c["indel"] else "sub", "both" if c["both"] else "forward", c["k"],
+                                        o.get("kind") if o.get("kind") != "ok" else "true" if any(o["preds"]) else "false")
+        dist[key] = dist.get(key, 0) + 1
     ctx.cov["distribution"] = dist
+    ctx.cov["lifecycle_gc_cases"] = sum(1 for c in cases + pc if c.get("gc"))
     tags = {}
-    for c in cases:
+    for c in cases + pc + clis + ann + tw1 + tw2:
         if c.get("tag"):
             tags[c["tag"]] = tags.get(c["tag"], 0) + 1
     ctx.cov["cases_by_tag"] = tags
@@ -1009,6 +1596,7 @@ def run(ctx, broken):
     ctx.cov["windows_not_whole"] = sum(1 for c in cases if c.get("kind") != "locate" and (c["begin"], c["length"]) != (0, -1))
     ctx.samples = [dict(case=c, implementation={k: o.get(k) for k in ("kind", "find", "all", "best", "cpat", "loc")})
                    for c, o in list(zip(cases, obs))[:2] + list(zip(cases, obs))[200:202] + list(zip(cases, obs))[-2:]]
+    ctx.samples += [dict(case=c, implementation=dict(kind=o.get("kind"), preds=o.get("preds"))) for c, o in list(zip(pc, opred))[10:12]]
     # goal-4 observation, measured: outside the agreement domain (ambiguity codes in the text, classes, negations) the count of a
     # re-aligned match is LocatePattern's (_samenuc), compared here with the edit distance under the automaton's symbol sets
     outside = dict(cases=0, realigned=0, count_equal=0, count_below_automaton_semantics=0, count_above=0, example_below=None, example_above=None)
@@ -1036,8 +1624,14 @@ def run(ctx, broken):
     ctx.cov["outside_agreement_domain"] = outside
     ctx.cov["model_vs_impl_mismatches"] = len(mism)
     unexplained = [i for i in mism if i not in failed]
+    if extra_mism and not unexplained and not ctx.violations:
+        more = gen_pred_cases(ctx, 400 if os.environ.get("VERIF_C10_SEARCH") else 4000)
+        evaluate(ctx, more, [], "searchpred", corr=False)
+        if not ctx.violations:
+            broken.append(dict(kind="correspondence", name="corr:C10/IsPatternMatchSequence", first_diverging_case=extra_mism[0][0],
+                               implementation=extra_mism[0][1], n_diverging=len(extra_mism)))
     if unexplained and not ctx.violations:
-        more = gen_cases(ctx, 6000)
+        more = gen_cases(ctx, 600 if os.environ.get("VERIF_C10_SEARCH") else 6000)
         evaluate(ctx, more, [], "search", corr=False)      # direct oracle only
         if not ctx.violations:
             i = unexplained[0]
@@ -1057,7 +1651,36 @@ def replay(ctx, rp):
     if not c:
         print("replay: no case in the replay file (proof obligation / build problem):", json.dumps(rp)[:1500])
         return
-    obs, mism, failed = evaluate(ctx, [c], [], "replay", report=False)
+    if c.get("kind") == "annot":
+        bindir, berr = ctx.build_cmds(["obigrep", "obiannotate"])
+        tw1 = [dict(pat=c["pat"], k=c["k"], indel=c["indel"], seq=x, begin=0, length=len(x), apis=True, rcseq=revcomp_text(x)) for x in c["seqs"]]
+        o1, _, _ = evaluate(ctx, tw1, [], "replay", report=False, corr=False)
+        o2 = []
+        for t, o in zip(tw1, o1):
+            if o.get("kind") == "ok" and o.get("cpat"):
+                oo, _, _ = evaluate(ctx, [dict({k: v for k, v in t.items() if k != "rcseq"}, pat=o["cpat"])], [], "replay", report=False, corr=False)
+                o2.append(oo[0])
+            else:
+                o2.append(None)
+        o = run_annot(ctx, bindir, c)
+        exp = [annot_expected(c, i, o1[i], o2[i]) for i in range(len(c["seqs"]))]
+        print("replay: obiannotate", " ".join(o["argv"]), "<in.fasta of %d sequences>" % len(c["seqs"]))
+        for i, x in enumerate(c["seqs"]):
+            print("  %-40s written %s | in-process BestMatch %s" % (x[:40], {k: v for k, v in o["records"].get(i, {}).items() if k.startswith("pattern")}, exp[i]))
+        print("  direct oracle  :", judge_annot(c, o, exp) or "property holds")
+        return
+    if c.get("kind") == "cli":
+        bindir, berr = ctx.build_cmds(["obigrep", "obiannotate"])
+        tw = cli_twins(c)
+        otw, _, _ = evaluate(ctx, tw, [], "replay", report=False)
+        o = run_cli(ctx, bindir, c)
+        print("replay: obigrep", " ".join(o["argv"]), "<in.fasta of %d sequences>" % len(c["seqs"]))
+        print("  selected       :", o["selected"], "rc", o["rc"], o["err"])
+        print("  in process     :", [t.get("preds") for t in otw])
+        print("  direct oracle  :", judge_cli(c, o, otw) or "property holds")
+        return
+    obs, mism, failed = evaluate(ctx, [c], [], "replay", report=False,
+                                 binary=("env GLIBC_TUNABLES=glibc.malloc.tcache_count=0 " + ctx.vh_bin) if c.get("freegc") else None)
     print("replay:", json.dumps(c))
     print("  implementation:", json.dumps(obs[0]))
     print("  direct oracle :", judge(c, obs[0]) if obs[0].get("kind") != "crash" else "crash")
